@@ -34,7 +34,11 @@ LENS_T = list(range(1, 41)) + [47, 53, 61, 64, 97, 127, 128, 131]
 def gen_cases(rng, tier):
     cases = []
     lens = LENS_Q if tier == "quick" else LENS_T
-    gvs = [(16, 1e9), (8, 10e9), (5, 2.5e9)] if tier == "quick" else [(16, 1e9), (8, 10e9), (5, 2.5e9), (33, 1e6), (2, 40e9), (64, 1e9)]
+    # every way of configuring the sampling grid: (sps,R), (sps,fs), (R,fs) with integer and NON-integer fs/R, fs alone
+    gvs = [{"sps": 16, "R": 1e9}, {"sps": 8, "R": 10e9}, {"sps": 5, "R": 2.5e9}, {"sps": 8, "fs": 80e9}, {"R": 10e9, "fs": 40e9},
+           {"R": 10e9, "fs": 25e9}, {"R": 2.5e9, "fs": 64e9}, {"fs": 20e9}, {"fs": 12.5e9}]
+    if tier != "quick":
+        gvs += [{"sps": 33, "R": 1e6}, {"sps": 2, "R": 40e9}, {"sps": 64, "R": 1e9}, {"R": 3e9, "fs": 10e9}, {"sps": 7, "fs": 10e9}]
     for n in lens:
         for cls, npol in (("e", 1), ("o", 1), ("o", 2)):
             for noise in (False, True):
@@ -43,18 +47,18 @@ def gen_cases(rng, tier):
                         if tier == "quick" and rng.random() < 0.5 and n not in (1, 2, 3, 5):
                             continue
                         dtype = rng.choice(["complex", "real", "int"])
-                        sps, R = rng.choice(gvs)
+                        g = rng.choice(gvs)
                         seed = rng.getrandbits(32)
                         cases.append({"kind": "call", "cls": cls, "npol": npol, "n": n, "noise": noise, "dom": dom,
-                                      "shift": shift, "dtype": dtype, "sps": sps, "R": R, "seed": seed})
+                                      "shift": shift, "dtype": dtype, "gv": g, "seed": seed})
     for n in lens:
         for shift in (False, True):
-            sps, R = rng.choice(gvs)
-            cases.append({"kind": "waxis", "n": n, "shift": shift, "sps": sps, "R": R, "cls": "e", "npol": 1, "noise": False,
-                          "dtype": "real", "seed": 1, "dom": "-"})
+            for g in ([rng.choice(gvs), rng.choice(gvs)] if tier == "quick" else gvs):
+                cases.append({"kind": "waxis", "n": n, "shift": shift, "gv": g, "cls": "e", "npol": 1, "noise": False,
+                              "dtype": "real", "seed": 1, "dom": "-"})
     for dom in ("x", "T", "", "freq"):
         cases.append({"kind": "baddomain", "dom": dom, "n": 4, "cls": "e", "npol": 1, "noise": False, "dtype": "real",
-                      "shift": False, "sps": 16, "R": 1e9, "seed": 3})
+                      "shift": False, "gv": {"sps": 16, "R": 1e9}, "seed": 3})
     rng.shuffle(cases)
     return cases
 
@@ -95,7 +99,7 @@ def run_impl(case):
         with warnings.catch_warnings():
             warnings.simplefilter("ignore")
             gv.clean()
-            gv(sps=case["sps"], R=case["R"])
+            gv(**case["gv"])
             s, nz = _data(case)
             x = _obj(case, s, nz)
             with time_limit(30):
@@ -224,7 +228,9 @@ def oracle(case, res):
     n = case["n"]
     eps = 64 * 2.2e-16
     if case["kind"] == "waxis":
-        fs = case["R"] * case["sps"]
+        g = case["gv"]
+        # the sampling rate now configured: the requested fs when one was given, else R*sps (R defaults to 1e9, sps to 16)
+        fs = g["fs"] if "fs" in g else g.get("R", 1e9) * g.get("sps", 16)
         ref = 2 * np.pi * np.fft.fftfreq(n) * fs
         if case["shift"]:
             ref = np.fft.fftshift(ref)
@@ -232,7 +238,7 @@ def oracle(case, res):
         if w.shape != ref.shape or np.max(np.abs(w - ref)) > eps * max(1.0, np.max(np.abs(ref))):
             v.append(("C02:w-axis", f"w(shift={case['shift']}) for n={n}, fs={fs} differs from 2*pi*fftfreq*fs"))
         if abs(res["fs"] - fs) > 1e-9 * fs:
-            v.append(("C02:fs", f"gv.fs={res['fs']} but R*sps={fs}"))
+            v.append(("C02:fs", f"gv.fs={res['fs']} but the configured sampling rate is {fs}"))
         return v
     want_cls = "electrical_signal" if case["cls"] == "e" else "optical_signal"
     if res["cls"] != want_cls or res["n"] != n or (case["cls"] == "o" and res["npol"] != case["npol"]):
@@ -292,4 +298,4 @@ def features(case, res):
 def nontrivial_key(case, res):
     if res["status"] != "ok" or case["n"] < 2:
         return None
-    return (case["kind"], case["cls"], case["npol"], case["n"], case["noise"], case["dom"], case["shift"], case["dtype"], case["sps"], case["R"])
+    return (case["kind"], case["cls"], case["npol"], case["n"], case["noise"], case["dom"], case["shift"], case["dtype"], tuple(sorted(case["gv"].items())))
